@@ -613,3 +613,42 @@ package transport
 //@   nopanic
 //@   pure
 //@   ensures calls(String) == 0
+
+// ---------------------------------------------------------------- C09: which transport may claim a request
+// A transport other than GET claims a request only if it is a POST (the websocket transport only an Upgrade
+// request); GET claims only GET requests. With "first supporting transport wins" (Server.getTransport) a plain GET
+// can therefore only ever be served by the GET transport, whose gate allows queries only.
+//@ trusted mime.ParseMediaType(v) (mediatype, params, err)
+//@   nopanic
+//@   pure
+//@ trusted strings.Contains(s, sub) (b)
+//@   nopanic
+//@   pure
+//@ func (POST).Supports [C09]
+//@   requires r != nil
+//@   ensures res0 ==> r.Method == "POST"
+//@   modifies nothing
+//@ func (GRAPHQL).Supports [C09]
+//@   requires r != nil
+//@   ensures res0 ==> r.Method == "POST"
+//@   modifies nothing
+//@ func (UrlEncodedForm).Supports [C09]
+//@   requires r != nil
+//@   ensures res0 ==> r.Method == "POST"
+//@   modifies nothing
+//@ func (MultipartForm).Supports [C09]
+//@   requires r != nil
+//@   ensures res0 ==> r.Method == "POST"
+//@   modifies nothing
+//@ func (SSE).Supports [C09]
+//@   requires r != nil
+//@   ensures res0 ==> r.Method == "POST"
+//@   modifies nothing
+//@ func (MultipartMixed).Supports [C09]
+//@   requires r != nil
+//@   ensures res0 ==> r.Method == "POST"
+//@   modifies nothing
+//@ func (GET).Supports [C09]
+//@   requires r != nil
+//@   ensures res0 ==> r.Method == "GET"
+//@   modifies nothing
